@@ -17,7 +17,8 @@ import common
 from common import Check
 import population
 
-THEOREMS = ["Nmfu.C03_no_memory_fault", "Nmfu.C03_counters_within_capacity", "Nmfu.C03_end_safe", "Nmfu.runTree_inv"]
+THEOREMS = ["Nmfu.C03_no_memory_fault", "Nmfu.C03_counters_within_capacity", "Nmfu.C03_end_safe", "Nmfu.runTree_inv",
+            "Nmfu.C03_start_establishes_inv", "Nmfu.C03_session_safe"]
 
 STORAGE = [
     ("in-struct", []),
